@@ -13,7 +13,7 @@ import random
 from fractions import Fraction
 
 from . import gen, tlc
-from .common import MachineryFailure, Result, bind_repo, seed
+from .common import Guard, MachineryFailure, Result, bind_repo, seed
 from .rel import Ladders
 
 COST_PARAMS = [n for n, _ in gen.FIXED_COMPONENTS] + gen.ADJ_FACTORS + [
@@ -84,10 +84,12 @@ def replay_wellcost(res: Result, vectors: list):
     logging.disable(logging.CRITICAL)
     bad = 0
     for v in vectors:
-        got = calculate_cost_of_one_vertical_well(model, float(v['z']), byint[v['c']], 1000.0, 'x', 1.0)
+        got = float('nan')
+        with Guard():
+            got = calculate_cost_of_one_vertical_well(model, float(v['z']), byint[v['c']], 1000.0, 'x', 1.0)
         want = Fraction(v['cost'])
         res.count('m2_wellcost_vectors')
-        if abs(Fraction(float(got)) - want) > Fraction(1, 10 ** 11) * max(abs(want), 1):
+        if got != got or abs(Fraction(float(got)) - want) > Fraction(1, 10 ** 11) * max(abs(want), 1):
             bad += 1
             if bad <= 10:
                 res.violation({'clause': 'C18_wellcost_m2', 'correlation': v['c'], 'depth_m': v['z']},
